@@ -163,7 +163,7 @@ impl Property for C19 {
         2000
     }
     fn rule(&self) -> String {
-        "operand pairs over sign x magnitude (special 64/127/128-bit boundary values, equal magnitudes, complements to 2^128-1, zero incl. negative-zero encodings, uniform, small; three constructors); every public operation compared with exact 256-bit sign-magnitude arithmetic. Non-trivial: some operation's exact result is zero, or lies within 2 of +-(2^128-1), or the operands have opposite signs and equal magnitude, or an operand is a negative-zero encoding. Distinct by digest of the operand pair.".into()
+        "operand pairs over sign x magnitude (special 64/127/128-bit boundary values, equal magnitudes, complements to 2^128-1, zero incl. negative-zero encodings, uniform, small; three constructors); every public operation (checked forms, operators and their compound-assignment forms `+=` `-=` `*=` `/=`) compared with exact 256-bit sign-magnitude arithmetic. Non-trivial: some operation's exact result is zero, or lies within 2 of +-(2^128-1), or the operands have opposite signs and equal magnitude, or an operand is a negative-zero encoding. Distinct by digest of the operand pair.".into()
     }
     fn assumptions(&self) -> Vec<String> {
         vec!["the value of an Integer is (-1)^negative * value; a negative zero encoding denotes 0".into()]
@@ -265,6 +265,41 @@ impl Property for C19 {
                         }
                         Err(_) => check(
                             Err(Violation::new("operator_panics", format!("{:?} {} {:?} panicked although the checked form succeeds", a, name, b)).with("op", name)),
+                            &mut out,
+                        ),
+                    }
+                    // the compound-assignment form of the same operation (`+=`, `-=`, `*=`, `/=`)
+                    let asg: Opr = match *name {
+                        "add" => |mut x, y| {
+                            x += y;
+                            x
+                        },
+                        "sub" => |mut x, y| {
+                            x -= y;
+                            x
+                        },
+                        "mul" => |mut x, y| {
+                            x *= y;
+                            x
+                        },
+                        _ => |mut x, y| {
+                            x /= y;
+                            x
+                        },
+                    };
+                    match catch_unwind(AssertUnwindSafe(|| asg(a, b))) {
+                        Ok(w) => {
+                            out.count("assign_forms");
+                            if val(w) != e {
+                                check(
+                                    Err(Violation::new("assign_value", format!("{} {}= {} gives {} expected {}", va, name, vb, val(w), e)).with("op", name)),
+                                    &mut out,
+                                );
+                            }
+                            check(consistent(w, &format!("assign_{}", name)), &mut out);
+                        }
+                        Err(_) => check(
+                            Err(Violation::new("operator_panics", format!("{:?} {}= {:?} panicked although the checked form succeeds", a, name, b)).with("op", name).with("assign", true)),
                             &mut out,
                         ),
                     }
